@@ -1,4 +1,5 @@
 import ArrowModel.C04.Lemmas
+import ArrowModel.C04.ArrayLemmas
 /-
 C04 — property theorems.  "Writing any sequence of record batches with the IPC file/stream
 writer (or the Flight encoder) and reading the bytes back returns … batch by batch, logically
@@ -86,6 +87,44 @@ theorem bitSlice_exact (v off len : Nat) :
 /-- unaligned offsets additionally zero the padding bits of the last byte -/
 theorem bitSlice_padding_zero (v off len i : Nat) (ho : off % 8 ≠ 0) (hi : len ≤ i) :
     (bitSlice v off len).1.testBit i = false := bitSlice_pad v off len i ho hi
+
+/-! ## (a′) whole arrays -/
+
+section WholeArray
+open ArrowModel.Physical
+
+/-- **Whole-array normalisation (partial).**  For every well-formed, decodable array `d` of the
+grammar {boolean, fixed-width primitive, FixedSizeBinary, Utf8/Binary (+Large), FixedSizeList,
+Struct, Dictionary keys} (any nesting of these, any offset, validity bitmap at any bit offset) and
+every row range `[o, o+l)`, the array `write_array_data` emits for `d.slice(o, l)` — validity
+bit-sliced or synthesised, buffers truncated / offsets re-based, children sliced recursively,
+offset 0 everywhere — denotes exactly rows `o .. o+l` of `d`.
+**Gaps** (hence `_partial`): (1) `List`/`LargeList` nodes (re-based offsets *and* a sliced child)
+are modelled and checked by the `warr` correspondence op but not proved; (2) the serialisation
+step `readArray (flatten x) = x` and the reader's dropping of a zero-null bitmap are evaluated by
+the driver on every `warr` case (`roundTrip`), not proved; (3) Null/Union/RunEnd/Map/views are
+outside the model. -/
+theorem norm_decode_partial (d : ArrayData) (o l : Nat) (vs : List Val) (hw : WellFormed d)
+    (hp : provedA d = true) (hd : decode d = some vs) (hol : o + l ≤ d.len) :
+    decode (norm d o l) = some ((vs.drop o).take l) :=
+  decode_norm d o l vs hw hp hd hol
+
+/-- the column as a whole: what `writeArray d` serialises denotes `d` -/
+theorem writeArray_decode_partial (d : ArrayData) (vs : List Val) (hw : WellFormed d)
+    (hp : provedA d = true) (hd : decode d = some vs) :
+    writeArray d = flatten (norm d 0 d.len) ∧ decode (norm d 0 d.len) = decode d := by
+  refine ⟨rfl, ?_⟩
+  rw [decode_norm d 0 d.len vs hw hp hd (by omega), hd]
+  have := decode_len hd
+  simp [ArrowModel.C02.sliceSpec, ← this]
+
+/-- non-vacuity: a sliced struct of (nullable int16, utf8) is in the proved grammar -/
+example : provedA ⟨.struct (.cons 0 (.prim 2) true (.cons 1 (.utf8 false) true .nil)), 2, 0, none, [],
+    [⟨.prim 2, 2, 1, some ⟨[0b101], 1, 2, 1⟩, [[1, 0, 2, 0, 3, 0]], []⟩,
+     ⟨.utf8 false, 2, 0, none, [[1, 0, 0, 0, 2, 0, 0, 0, 3, 0, 0, 0], [0x61, 0x62, 0x63]], []⟩]⟩ = true := by
+  decide
+
+end WholeArray
 
 /-! ## (b) framing and body layout -/
 
